@@ -745,6 +745,18 @@ pub fn build(d: &mut Dna, cfg: &GenCfg) -> Built {
                         }
                     }
                 }
+                // a wrapper from another module that is spelled like the deriving type itself
+                if cfg.wrappers && !cfg.plain_types_only && cfg.type_names.is_none() {
+                    if let Some(p) = gens.types.first() {
+                        if let Some(b) = base.iter().find(|b| b.inst == p.inst) {
+                            if let Some(t) = homonym(&type_name, &param_ty(&p.name, b)) {
+                                if t.caps & need == need && (!want_key || t.has(caps::KEY)) && !(want_unsized && p.name == unsized_param) {
+                                    gen_cands.push(t);
+                                }
+                            }
+                        }
+                    }
+                }
                 // one field over two parameters
                 if gens.types.len() >= 2 && !want_unsized {
                     let (p0, p1) = (&gens.types[0], &gens.types[1]);
@@ -1049,7 +1061,8 @@ pub fn build(d: &mut Dna, cfg: &GenCfg) -> Built {
                             continue;
                         }
                         if d.chance(cfg.attr_pct / 2) {
-                            let nm = format!("k{fi}");
+                            // (a raw identifier is a legal name value in every spelling)
+                            let nm = if cfg.raw_idents && d.chance(15) { "r#type".to_string() } else { format!("k{fi}") };
                             match f.attrs.iter_mut().find(|a| a.tr == Tr::Debug) {
                                 Some(a) => a.params.push((FParam::Name(nm), d.byte())),
                                 None => f.attrs.insert(0, FAttr { tr: Tr::Debug, into_ty: None, params: vec![(FParam::Name(nm), d.byte())], sp: d.byte() }),
@@ -1492,6 +1505,9 @@ pub fn build(d: &mut Dna, cfg: &GenCfg) -> Built {
     }
     if spec.variants.iter().any(|v| v.fields.iter().any(|f| f.name.as_deref().map(|n| n.starts_with("r#")).unwrap_or(false))) {
         classes.push("raw_identifier");
+    }
+    if spec.all_fields().any(|f| f.ty.src.contains("prelude::homonyms::")) {
+        classes.push("field_type_spelled_like_the_type");
     }
     if spec.all_fields().any(|f| f.ty.src.contains("Decoy")) {
         classes.push("decoy_field(inherent methods named like trait methods)");
